@@ -19,7 +19,7 @@ def fill(claim, NA):
 			   "arbitrary inputs; Props/Net.lean and Props/NetBO.lean lift them to WHOLE NETWORKS (any number of nodes, any history, every reachable state) by "
 			   "projecting one period of the model onto an edge / a node (step_edge_internal) and induction over the history, under executable hypotheses "
 			   "(netWFb, initOKb, VisitOK, non-negative demands) that the driver evaluates on every generated network and the evidence counts. "
-			   "Arrival exactness (a unit ordered at t is received exactly OLT+SLT periods later) remains at pipeline level (orders_arrive, shiftPipe_get) + correspondence. "
+			   "Shipment arrival exactness (a unit shipped at t is received exactly SLT periods later absent TP/RP pauses) remains at pipeline level (shiftPipe_get) + correspondence. "
 			   "Multi-product BOM shares, cost functions, order_quantity_override and BEBS are outside the model.")
 	claim('C01',
 		  "Theorems (Props/C01.lean): every kernel that moves units conserves them for all inputs: receipt (recvShip_conserves), production bound "
@@ -46,7 +46,8 @@ def fill(claim, NA):
 		  "OLT is read from slot 0 after exactly OLT shifts), shiftOrders_iter, shiftPipe_get, tp_freezes, rp_releases. NETWORK LEVEL (Props/Net.lean): step_edge_internal (one period of the "
 		  "whole model acts on every internal edge record exactly as edgePeriod for some non-negative order and on-hand), ledger_step, on_order_exact_network / "
 		  "on_order_exact_checked: in EVERY state the simulator reports, on every internal edge of every well-formed network, on-order = orders travelling + supplier "
-		  "backorders + held + in transit, for any number of nodes and periods. Tie: exact trajectory "
+		  "backorders + held + in transit, for any number of nodes and periods; orders_arrive_network (Props/NetArrive.lean): on every internal edge, for every period t, the "
+		  "inbound order the supplier reads in period t + OLT is exactly the order quantity the customer placed in period t, whatever happens in between. Tie: exact trajectory "
 		  "correspondence with SLT 0-3 × OLT 0-2 × disruption type cells + on-order / order-arrival / shipment-arrival predicates on every Python trace.", SIMNOTE)
 	claim('C04',
 		  "Theorems (Props/C04.lean): bs_rule, ebs_rule, sS_rule, rQ_rule, fq_rule, capped_rule (None and 0 = no capacity), placeOrders_follows_policy "
